@@ -494,6 +494,8 @@ def main(tier, seed):
     judge_pow(rep, algopy, [gen_pow_case(rng, tier) for _ in range(120 if tier == 'quick' else 1500)])
     import r9
     r9.c02_scalar_bases(rep, algopy, rng, tier)
+    import r10
+    r10.c02_large_operands(rep, algopy, rng, tier)
     return rep.finish()
 
 
